@@ -122,11 +122,12 @@ func caseC14(c *Ctx) {
 	}()
 	rp := readerPlanFor(c) // drawn once: the enumeration below must not consume the stream
 	mkEnvSalt := uint64(0)
-	flushW := c.Chance(1, 4)
+	wkind := c.Pick(5, 2, 2, 1) // plain | with Flush | with WriteString | io.Discard (reader faults only)
+	discardFor := ""
 	mkEnv := func() *Env {
 		r := rp
 		r.ChunkSeed = mix(rp.ChunkSeed, mkEnvSalt)
-		e := &Env{Doc: doc, Reader: r, Writer: noWriterFault, Cb: noCbFault, FlushWriter: flushW}
+		e := &Env{Doc: doc, Reader: r, Writer: noWriterFault, Cb: noCbFault, FlushWriter: wkind == 1, StringWriter: wkind == 2, DiscardWriter: wkind == 3 && strings.HasPrefix(discardFor, "reader")}
 		if op.FromRoot {
 			e.Tree = forest[0]
 		}
@@ -213,7 +214,7 @@ func caseC14(c *Ctx) {
 			}
 			fail("C14:"+what+":"+mode+":"+opSig(op), "%s: the writer refused %d bytes at write #%d (%s) and the call returned nil", opk, out.WriterRefused, f.k, f.kind)
 		}
-		if out.Err == nil && !malformed {
+		if out.Err == nil && !malformed && !(wkind == 3 && strings.HasPrefix(f.kind, "reader")) {
 			// nil => every byte of the output was accepted
 			ref := base
 			if cl, why := sameResult(c, op, parts, trees, ref, out, "", ""); cl != "" && (op.Kind == "output" || (op.Kind == "mkdir" && op.DryRun && op.FromRoot)) {
@@ -242,6 +243,7 @@ func caseC14(c *Ctx) {
 		c.st.Add("enumerated.write-indices", W)
 		for _, f := range faults {
 			mkEnvSalt = hashStr(f.kind) + uint64(f.k)
+			discardFor = f.kind
 			env := mkEnv()
 			f.apply(env)
 			out := c.Direct(simple, env)
@@ -269,6 +271,7 @@ func caseC14(c *Ctx) {
 		f.k = c.Draw(W)
 	}
 	c.Scenario["fault"] = fmt.Sprintf("%s at %d", f.kind, f.k)
+	discardFor = f.kind
 	env := mkEnv()
 	f.apply(env)
 	env.MaxSteps = 40000
